@@ -28,7 +28,7 @@ func specC01() *propertySpec {
 		Rules: []ruleSpec{
 			{"C01-R1", "single-buffer: captureTestOutput, saveFailFile and the final replay stream all take result #5 of doCheck; the saved seed is result #3; the final replay logs to the TB", ruleC01R1},
 			{"C01-R2", "verified-pair: every returned (buffer, error) pair comes from one execution on that buffer, from a callee that guarantees it, or is the shrinker's (rec.data, err) state", ruleC01R2},
-			{"C01-R3", "prune-faithful: nothing derived from discarded bits steers later draws; discarded groups produce no used value (shared with C04-R4.4/R4.6)", func(r *Run) { ruleC04R44(r); ruleC04R46(r) }},
+			{"C01-R3", "prune-faithful: nothing derived from discarded bits steers later draws; discarded groups produce no used value (shared with C04-R4.4/R4.6)", func(r *Run) { ruleC04R44(r); ruleC04R46(r); ruleC03R2(r) }},
 			{"C01-R4", "logged-is-returned: Draw logs and returns the single result of g.value(t)", ruleC01R4},
 			{"C01-R5", "no-phantom-failure: every bracket invocation gets a fresh (or reset) T and consults its own flag (shared with C11-R1, C02-R2)", func(r *Run) { ruleC11R1(r); ruleC02R2(r) }},
 			{"C01-R6", "flaky-only-on-mismatch: the 'flaky test' report is reachable only through traceback(err1) != traceback(err2) of doCheck's two errors", ruleC01R6},
